@@ -8,6 +8,17 @@ open Cao Cao.Compiler Cao.Vm
 
 structure VmEngState where
   st : Option VmState := none
+  cfg : Config := {}
+
+def parseSched (args : List String) : Sched :=
+  match args.find? (fun a => a.startsWith "sched=") with
+  | some a =>
+    let v := (a.drop 6).toString
+    if v == "every" then .every
+    else if v.startsWith "single:" then .single (((v.drop 7).toString.toNat?).getD 0)
+    else if v.startsWith "mask:" then .mask ((Val.natOfHex? (v.drop 5).toString).getD 0)
+    else .none
+  | none => .none
 
 def kv (args : List String) (key : String) (dflt : Nat) : Nat :=
   match args.find? (fun a => a.startsWith (key ++ "=")) with
@@ -34,13 +45,21 @@ def showOutcome (p : Prog) (s : VmState) (e : Option RunErr) : String :=
     "] alloc=" ++ toString s.mem.allocated ++ " frames=" ++ toString s.frames.length ++
     " stack=" ++ toString s.stack.count ++ " disp=" ++ toString s.dispatches
 
+/-- the part of an observation that must not depend on when collections run -/
+def showObs (p : Prog) (s : VmState) (e : Option RunErr) : String :=
+  let full := showOutcome p s e
+  -- cut the counters (`alloc=` onwards)
+  match full.splitOn " alloc=" with
+  | a :: _ => a
+  | [] => full
+
 def vmStep (st : VmEngState) (args : List String) : VmEngState × String :=
   match args with
   | "new" :: rest =>
     let cfg : Config := { memLimit := kv rest "mem" Gen.memLimit, stackSize := kv rest "stack" Gen.stackSize,
                           callStackSize := kv rest "calls" Gen.callStackSize }
     if cfg.stackSize == 0 then (st, "bad-op") else
-    ({ st := some (VmState.fresh cfg) }, "ok")
+    ({ st := some (VmState.fresh cfg), cfg := cfg }, "ok")
   | "run" :: m :: rest =>
     match st.st, Module.ofTok? m with
     | some s, some m =>
@@ -48,13 +67,26 @@ def vmStep (st : VmEngState) (args : List String) : VmEngState × String :=
       | .error e => (st, "compile-" ++ showCErr e)
       | .ok prog =>
         let p := Prog.ofProgram prog
-        let s := { s with hostLog := [] }
+        let s := { s with hostLog := [], sched := parseSched rest, allocIndex := 0, forcedGcs := 0 }
         let (s', e) := run p (kv rest "budget" Gen.maxInstr) s
-        ({ st := some s' }, showOutcome p s' e)
+        ({ st with st := some s' }, showOutcome p s' e ++ " gcs=" ++ toString s'.forcedGcs ++ "/" ++ toString s'.allocIndex)
     | _, _ => (st, "bad-op")
+  | "schedcheck" :: m :: rest =>
+    match Module.ofTok? m with
+    | some m =>
+      match compile m Gen.stdlib with
+      | .error e => (st, "compile-" ++ showCErr e)
+      | .ok prog =>
+        let p := Prog.ofProgram prog
+        let budget := kv rest "budget" Gen.maxInstr
+        let (sa, ea) := run p budget (VmState.fresh st.cfg)
+        let (sb, eb) := run p budget { VmState.fresh st.cfg with sched := parseSched rest }
+        (st, "A={" ++ showObs p sa ea ++ "} B={" ++ showObs p sb eb ++ "} gcs=" ++ toString sb.forcedGcs ++ "/" ++ toString sb.allocIndex ++
+             " allocA=" ++ toString sa.mem.allocated ++ " allocB=" ++ toString sb.mem.allocated)
+    | none => (st, "bad-op")
   | ["clear"] =>
     match st.st with
-    | some s => ({ st := some (clear s) }, "ok")
+    | some s => ({ st with st := some (clear s) }, "ok")
     | none => (st, "bad-op")
   | ["stats"] =>
     match st.st with
